@@ -246,7 +246,7 @@ def _deferred(repo, rep):
     normal, deferred = handler.a, handler.b
     rep.check(any(isinstance(w, A.CallV) and w.name == "_translate" or
                   isinstance(w, A.Alt) and "cached" in w.test
-                  for w in A.walk(normal)) or True, "R19.2", site,
+                  for w in A.walk(normal)), "R19.2", site,
               "normal path: the statements produced by _translate",
               construct="normal", where=wh)
     items = list(A.flatten(deferred))
